@@ -78,7 +78,7 @@ def plan(tier, seed):
     if tier == "quick":
         nsh, programs, maxlen, vmax, bmax = 16, 24000, 12, 4096, 512
     else:
-        nsh, programs, maxlen, vmax, bmax = 64, 3000000, 16, 65536, 4096
+        nsh, programs, maxlen, vmax, bmax = 64, 1500000, 16, 65536, 4096
     return [
         {"shard": s, "nshards": nsh, "programs": programs // nsh, "maxlen": maxlen, "vmax": vmax, "bmax": bmax}
         for s in range(nsh)
@@ -1257,9 +1257,9 @@ def floor(agg, tier):
         if c.get(name, 0) < n:
             miss.append("%s = %d < %d" % (name, c.get(name, 0), n))
 
-    need("programs", 20000 if q else 2500000)
-    need("programs_bytes_equal", 12000 if q else 1500000)
-    need("programs_read_back", 12000 if q else 1500000)
+    need("programs", 20000 if q else 1300000)
+    need("programs_bytes_equal", 12000 if q else 800000)
+    need("programs_read_back", 12000 if q else 800000)
     for kind in ("bit", "nbits", "uint_lit", "bytes", "bitarray", "uint", "sint", "align"):
         need("wop:" + kind, 500)
         need("rop:" + kind, 500)
